@@ -80,6 +80,23 @@ Record exact_pre (bshape : N -> N) (src dst : repo) (to_send : list (N * commit)
   pre_dst_wf : TablesWF bshape dst;
   pre_compat : compat src dst }.
 
+
+(** The same without any well-formedness of the destination's tables: it may hold ANY subset
+    of objects of ANY kind. *)
+Record exact_pre_any (bshape : N -> N) (src dst : repo) (to_send : list (N * commit)) (tbs commons : list N) : Prop := {
+  apre_src_wf : SrcWF bshape src;
+  apre_sent_in_src : forall c cc, In (c, cc) to_send -> lookup c (commits src) = Some cc;
+  apre_commons_in_src : forall c, In c commons -> has_commit src c = true;
+  apre_parent_first : parent_first dst to_send;
+  apre_dst_closed : Closed dst;
+  (* NOT required: that the tables stored at the destination are usable.  The destination may
+     hold any subset of objects of any kind (a table object without its indices, indices
+     without the table, ...).  Only the tables of the declared-common commits, whose blocks
+     the sender withholds, must be usable there if present: *)
+  apre_commons_usable : forall t tc, common_table src commons t ->
+                       lookup t (tables dst) = Some tc -> table_ok bshape dst t tc;
+  apre_compat : compat src dst }.
+
 (** declared common commits are full at the destination *)
 Definition commons_full (src dst : repo) (commons : list N) : Prop :=
   forall t, common_table src commons t -> has_table dst t = true.
@@ -106,6 +123,33 @@ Record exact_post (bshape : N -> N) (src dst : repo) (to_send : list (N * commit
   keep_commits : forall c, has_commit dst c = true -> lookup c (commits d') = lookup c (commits dst);
   keep_tables : forall t, has_table dst t = true -> lookup t (tables d') = lookup t (tables dst);
   keep_blocks : forall b, has_block dst b = true -> lookup b (blocks d') = lookup b (blocks dst) }.
+
+
+(** ... and the corresponding conclusion: every SENT table is usable afterwards; all stored
+    tables are if they all were before. *)
+Record exact_post_any (bshape : N -> N) (src dst : repo) (to_send : list (N * commit)) (tbs : list N) (d' : repo) : Prop := {
+  (* the sent objects are there, identical *)
+  apost_commits : forall c cc, In (c, cc) to_send -> lookup c (commits d') = Some cc;
+  apost_tables : forall t tc, sent_table src to_send tbs t tc -> lookup t (tables d') = Some tc;
+  apost_blocks : forall t tc b, sent_table src to_send tbs t tc -> In b (tbl_blocks tc) ->
+                has_block d' b = true /\ lookup b (blocks d') = lookup b (blocks src);
+  apost_compat : compat src d';
+  (* rebuilt indices, usable tables, closed history *)
+  apost_closed : Closed d';
+  apost_usable : forall t tc, sent_table src to_send tbs t tc -> table_ok bshape d' t tc;
+  apost_wf : TablesWF bshape dst -> TablesWF bshape d';
+  (* exactly those: nothing else appears, nothing present before changes *)
+  aframe_commits : forall c, has_commit d' c = true <-> has_commit dst c = true \/ In c (map fst to_send);
+  aframe_tables : forall t, has_table d' t = true <-> has_table dst t = true \/ exists tc, sent_table src to_send tbs t tc;
+  aframe_blocks : forall b, has_block d' b = true <->
+                 has_block dst b = true \/ exists t tc, sent_table src to_send tbs t tc /\ In b (tbl_blocks tc);
+  aframe_blkidx : forall x, In x (blkidx d') <->
+                 In x (blkidx dst) \/ exists t tc, sent_table src to_send tbs t tc /\ In x (map snd (t_blocks tc));
+  aframe_tblidx : forall t, In t (tblidx d') <-> In t (tblidx dst) \/ exists tc, sent_table src to_send tbs t tc;
+  aframe_prof : forall t, In t (prof d') <-> In t (prof dst) \/ exists tc, sent_table src to_send tbs t tc;
+  akeep_commits : forall c, has_commit dst c = true -> lookup c (commits d') = lookup c (commits dst);
+  akeep_tables : forall t, has_table dst t = true -> lookup t (tables d') = lookup t (tables dst);
+  akeep_blocks : forall b, has_block dst b = true -> lookup b (blocks d') = lookup b (blocks dst) }.
 
 (** shape of the packfile sequence: a partition of the stream into non-empty packfiles
     (one empty packfile when there is nothing to send) *)
